@@ -679,8 +679,74 @@ def run_option_dicts(fst, res):
                     res.fail(cid, 'option-dict-unusable-after-call', f'{d} {e!r}', {}, rep)
 
 
+# ---------------------------------------------------------------------------------------------------------------------
+# (5) calls without options (attribute / item assignment) must not leave anything behind for the next one
+
+CARRY = [  # (source, statement applied to the tree `f`): multi-line and one-line codes into slots with their own option handling
+    ("from m import a, b", r"f.body[0].names[0] = 'c as \\\n d'"),
+    ("import a, b", r"f.body[0].names[1] = 'c.d as \\\n e'"),
+    ("x = a * b", "f.body[0].value.left = 'p + q'"),
+    ("x = a * b", "f.body[0].value.right = '(r,\\n s)'"),
+    ("with a as b: pass", "f.body[0].items[0] = 'u as (v,\\n w)'"),
+    ("f(a, b)", "f.body[0].value.args[0] = 'x := 1'"),
+    ("v = [a, b]", "f.body[0].value.elts[1] = 'lambda: (yield)'"),
+    ("if a:\n    b  # c\nd", "f.body[0].body[0] = 'e = 1'"),
+    ("if a:\n    b  # c\nd", "del f.body[0]"),
+    ("def g(a, b=1): pass", "f.body[0].args.args[0] = 'z: int'"),
+    ("match s:\n    case [a, b]: pass", "f.body[0].cases[0].pattern.patterns[0] = 'c | d'"),
+    ("x = {a: b}", "f.body[0].value.values[0] = 'p if q else r'"),
+]
+_CARRY_SCRIPT = """
+import sys, json
+sys.path.insert(0, {src!r})
+import fst
+from fst import FST
+out = []
+for k in {seq!r}:
+    src, stmt = {carry!r}[k]
+    f = FST(src, 'exec')
+    try:
+        exec(stmt, {{'f': f}})
+        out.append(f.src)
+    except Exception as e:
+        out.append('EXC:' + e.__class__.__name__)
+print(json.dumps(out))
+"""
+
+
+def run_carry(fst, first, res):
+    """Every ordered pair of option-less calls in a fresh interpreter: the second result must be what the call gives alone."""
+    import json
+    import os
+    import subprocess
+    import sys
+    repo_src = os.path.join(os.environ.get('PFSTMC_REPO', '/repo'), 'src')
+
+    def run(seq):
+        r = subprocess.run([sys.executable, '-X', 'utf8', '-c', _CARRY_SCRIPT.format(src=repo_src, seq=seq, carry=CARRY)],
+                           capture_output=True, text=True, timeout=120, env=dict(os.environ, PYTHONHASHSEED='0'))
+        if r.returncode:
+            raise RuntimeError(r.stderr[-400:])
+        return json.loads(r.stdout)
+    solo = [run([k])[0] for k in range(len(CARRY))]
+    for second in range(len(CARRY)):
+        cid = f'C20/carry/{first}->{second}'
+        res.evals += 1
+        res.transitions += 2
+        res.traces += 1
+        got = run([first, second])
+        if got != [solo[first], solo[second]]:
+            res.fail(cid, 'call-without-options-leaves-something-behind-for-the-next-call',
+                     f'first: {CARRY[first][1]} on {CARRY[first][0]!r}\nthen: {CARRY[second][1]} on {CARRY[second][0]!r} -> {got[1]!r}\nalone: {solo[second]!r}',
+                     {'carry': True}, {'carry': first})
+        else:
+            res.nontriv('carry', first, second)
+            res.outcomes['carry-ok'] += 1
+
+
 def shards(tier):
     out = [{'kind': 'inventory'}, {'kind': 'oplevel'}, {'kind': 'optval'}]
+    out += [{'kind': 'carry', 'first': k} for k in range(len(CARRY))]
     M = 16
     out += [{'kind': 'proto', 'depth': 3 if tier == 'quick' else 4, 'part': [r, M]} for r in range(M)]
     # deeper over two options (one whose values compare equal across types): named-with-its-current-value, changed inside, left
@@ -712,6 +778,8 @@ def run_shard(desc, tier, res):
         inventory(fst, res)
     elif k == 'oplevel':
         run_oplevel(fst, res)
+    elif k == 'carry':
+        run_carry(fst, desc['first'], res)
     elif k == 'optval':
         run_option_values(fst, res)
         run_option_dicts(fst, res)
@@ -738,7 +806,9 @@ def run_shard(desc, tier, res):
 
 def replay(rep, res):
     import fst
-    if 'optval' in rep:
+    if 'carry' in rep:
+        run_carry(fst, rep['carry'], res)
+    elif 'optval' in rep:
         run_option_values(fst, res)
         run_option_dicts(fst, res)
     elif 'hist' in rep:
